@@ -290,7 +290,7 @@ fn one_point_case(default_packed: bool, requested: Option<StaticBinaryInputVaria
 // @tier thorough
 // @class attempt
 // @timeout 3600
-// @mem 24
+// @mem 16
 // @units StaticDatabase::{add, update, select_by_type, write, write_typed_range}, StaticVariation<BinaryInput>::{promote, get_write_info}, RangeWriter, WireFlags for BinaryInput
 // @bounds one binary input (index 3, default variation g1v2), any value and flag octet, READ that explicitly asks for the packed variation g1v1, the point updated with arbitrary new value/flags after the selection: the single-fragment response is byte-for-byte what the value AT SELECTION TIME implies - packed g1v1 only if its flags were exactly ONLINE, otherwise g1v2 with the flags - and nothing of the later update shows (value, flags or choice of variation)
 // @outside more than one point (BTreeMap with several entries: attempt-only harnesses), multi-fragment resumption of this path, the other seven point types
@@ -305,7 +305,7 @@ fn c11_one_point_requested_packed() {
 // @tier thorough
 // @class attempt
 // @timeout 3600
-// @mem 24
+// @mem 16
 // @units as c11_one_point_requested_packed
 // @bounds as above with g1v1 as the point's configured default and a READ that names no variation
 #[kani::proof]
